@@ -76,6 +76,7 @@ type RunResult struct {
 	Workers    int
 	ViolCount  map[string]int
 	violKept   map[string]int
+	abortSeen  map[string]bool
 	NonTrivial int
 }
 
@@ -149,14 +150,14 @@ func (in *Interp) Harnesses() []string {
 }
 
 type worker struct {
-	in   *Interp
-	cfg  *Config
-	tt   *TermTable
-	sol  *Solver
-	res  *RunResult
-	mu   *sync.Mutex
-	keep int
-	base *World
+	in      *Interp
+	cfg     *Config
+	tt      *TermTable
+	sol     *Solver
+	res     *RunResult
+	mu      *sync.Mutex
+	keep    int
+	base    *World
 	sigSeen map[string]int
 }
 
@@ -298,7 +299,7 @@ func Explore(in *Interp, cfg *Config, nWorkers int, solverBin string, timeoutMs 
 	if cfg.MaxConcr == 0 {
 		cfg.MaxConcr = 64
 	}
-	res := &RunResult{Harness: cfg.Harness, Reached: map[string]int{}, Asserted: map[string]int{}, Funcs: map[string]bool{}, Workers: nWorkers, ViolCount: map[string]int{}, violKept: map[string]int{}}
+	res := &RunResult{Harness: cfg.Harness, Reached: map[string]int{}, Asserted: map[string]int{}, Funcs: map[string]bool{}, Workers: nWorkers, ViolCount: map[string]int{}, violKept: map[string]int{}, abortSeen: map[string]bool{}}
 	t0 := time.Now()
 	var mu sync.Mutex
 	jobs := [][]Decision{nil}
@@ -381,7 +382,8 @@ func Explore(in *Interp, cfg *Config, nWorkers int, solverBin string, timeoutMs 
 						res.Funcs[k] = true
 					}
 					if w.end == EndAbort {
-						if len(res.Aborts) < 20 {
+						if !res.abortSeen[w.endMsg] && len(res.Aborts) < 20 {
+							res.abortSeen[w.endMsg] = true
 							res.Aborts = append(res.Aborts, w.endMsg+" @ "+decString(ex.snapshot()))
 						}
 					}
@@ -393,7 +395,7 @@ func Explore(in *Interp, cfg *Config, nWorkers int, solverBin string, timeoutMs 
 						}
 					}
 					if len(res.Samples) < 6 && w.end != EndAssumeFalse && (len(res.Samples) < 3 || len(w.violations) > 0) {
-						res.Samples = append(res.Samples, PathSample{Decisions: decString(ex.snapshot()), Inputs: w.inputValues(nil), Trace: tail(w.trace, 30), End: endString(w)})
+						res.Samples = append(res.Samples, PathSample{Decisions: decString(ex.snapshot()), Inputs: w.inputValues(nil), Trace: tail(w.trace, traceTail()), End: endString(w)})
 					}
 					tooMany := maxViol > 0 && len(res.ViolCount) >= maxViol
 					timedOut := time.Now().After(deadline)
@@ -427,6 +429,13 @@ func Explore(in *Interp, cfg *Config, nWorkers int, solverBin string, timeoutMs 
 	}
 	res.Complete = len(res.Aborts) == 0 && res.Stats.Inconclusive == 0
 	return res, nil
+}
+
+func traceTail() int {
+	if traceCalls {
+		return 100000
+	}
+	return 30
 }
 
 func tail(s []string, n int) []string {
